@@ -5,7 +5,7 @@
    premises [status k = MgOptimal -> feasible k], [status k = MgInfeasible -> ~ feasible k]. *)
 From Coq Require Import List NArith ZArith QArith Bool Arith Lia.
 Import ListNotations.
-From FP Require Import Lin Blocks BlocksProofs PathEnc MiscEnc MiscEncProofs MgsComplete.
+From FP Require Import Lin Blocks BlocksProofs PathEnc MiscEnc MiscEncProofs MgsComplete LowerBoundsMgs MgsRange.
 Local Open Scope Q_scope.
 
 (* rows/columns of MinGenSet._create_solver(k) => the Gen values are a multiset of size k of values in
@@ -89,6 +89,51 @@ Theorem C15_mgs_solves_when_possible : forall (I : mgs_inst) (status : nat -> ms
 Proof. exact mgs_solves_when_possible. Qed.
 Print Assumptions C15_mgs_solves_when_possible.
 
+(* ---- the upper end of the search range always suffices (no partition constraints) ---- *)
+(* the differences of the sorted numbers and the total: len(numbers) + 1 non-negative elements that sum to the total and
+   generate every number as a prefix sum (multiplicity 1) *)
+Theorem C15_range_witness : forall (mult : nat) (numbers : list Q) (total : Q), (1 <= mult)%nat -> 0 <= total ->
+  Forall (fun a => 0 <= a <= total) numbers ->
+  length (range_witness numbers total) = S (length numbers) /\ genset mult numbers total (range_witness numbers total).
+Proof. exact range_witness_genset. Qed.
+Print Assumptions C15_range_witness.
+
+(* padding with zeros keeps a generating multiset generating ... *)
+Theorem C15_genset_padding : forall (mult : nat) (numbers : list Q) (total : Q) (g : list Q) (n : nat),
+  genset mult numbers total g -> genset mult numbers total (g ++ repeat 0 n).
+Proof. exact genset_pad. Qed.
+Print Assumptions C15_genset_padding.
+
+(* ... hence "the model for k is satisfiable" is monotone in k (what a search that starts from a lower bound relies on) *)
+Theorem C15_feasibility_monotone_in_k : forall (I : mgs_inst) (k k' : nat), mg_parts I = None -> (1 <= mg_mult I)%nat -> (k <= k')%nat ->
+  (exists a, sat a (encode_mgs I k)) -> exists a, sat a (encode_mgs I k').
+Proof. exact mgs_feasible_monotone. Qed.
+Print Assumptions C15_feasibility_monotone_in_k.
+
+(* for numbers in [0, total] (integral data for int) the model is satisfiable for every k >= len(numbers) + 1 *)
+Theorem C15_range_upper_end_suffices : forall (I : mgs_inst), mg_parts I = None -> (1 <= mg_mult I)%nat -> mgs_domain I ->
+  forall k, (S (length (mg_numbers I)) <= k)%nat -> exists a, sat a (encode_mgs I k).
+Proof. exact mgs_model_feasible_from_n_plus_1. Qed.
+Print Assumptions C15_range_upper_end_suffices.
+
+(* MinGenSet.solve ALWAYS reports a size (solver specification, conclusive statuses) when every retained number lies in
+   [0, total], lowerbound <= len(initial numbers) + 1, no partition constraints; by C15_mgs_returns_minimum it is the minimum *)
+Theorem C15_mgs_always_solves : forall (I : mgs_inst) (status : nat -> mstatus) (lb n_initial : nat),
+  mg_parts I = None -> (1 <= mg_mult I)%nat -> mgs_domain I ->
+  (length (mg_numbers I) <= n_initial)%nat -> (lb <= S n_initial)%nat ->
+  (forall k, status k = MgInfeasible -> forall a, ~ sat a (encode_mgs I k)) ->
+  (forall k, status k = MgOptimal \/ status k = MgInfeasible) ->
+  exists tried k, mgsm_loop status lb n_initial (extra_cuts (mg_parts I)) = (tried, Some k).
+Proof. exact mgs_always_solves. Qed.
+Print Assumptions C15_mgs_always_solves.
+
+(* outside that domain: with max_multiplicity = 1 a number above the total has no generating multiset of any size, so every
+   model of the search is infeasible and MinGenSet ends unsolved (MinFlowDecomp's lower bound is then unavailable) *)
+Theorem C15_number_above_total_infeasible : forall (numbers : list Q) (total : Q) (g : list Q) (a : Q),
+  In a numbers -> total < a -> ~ genset 1 numbers total g.
+Proof. exact number_above_total_infeasible. Qed.
+Print Assumptions C15_number_above_total_infeasible.
+
 (* towards completeness: the multiplicity's bit vector (sized from max(total, max_multiplicity), b959a54)
    represents every value 0 .. max_multiplicity *)
 Theorem C15_multiplicity_bits_suffice : forall I : mgs_inst, 0 <= mg_total I ->
@@ -146,9 +191,9 @@ Proof. exact mgsm_loop_none. Qed.
 Print Assumptions C15_loop_unsolved.
 
 (* with conclusive statuses solve() succeeds whenever some size in lowerbound .. len(numbers)+1+extra_cuts is feasible.
-   PARTIAL: that a generating multiset of at most that size exists whenever one exists at all (cut-point construction:
-   the numbers and the prefix sums of every partition constraint as cut points of [0,total]) is not proved in Coq;
-   it is sampled by E2 *)
+   Without partition constraints some size of the range IS feasible (C15_range_upper_end_suffices, C15_mgs_always_solves below);
+   PARTIAL only for partition constraints: that len(numbers)+1+extra_cuts elements suffice there (cut-point construction with
+   the prefix sums of every constraint) is not proved in Coq; it is sampled by E2 *)
 Theorem C15_loop_complete_partial : forall (feasible : nat -> Prop) (status : nat -> mstatus),
   (forall k, status k = MgInfeasible -> ~ feasible k) ->
   forall lb n extra, (forall k, status k = MgOptimal \/ status k = MgInfeasible) ->
@@ -261,6 +306,9 @@ Example C15_nonvacuous_complete : genset_for ex_complete_inst [3 # 4; 1 # 4] /\ 
 Proof. split; [exact ex_complete_genset|exact ex_complete_sat]. Qed.
 Example C15_nonvacuous_complete_with_partition_constraints : genset_for ex_parts_inst [2; 1; 2; 1] /\ exists a, sat a (encode_mgs ex_parts_inst 4).
 Proof. split; [exact ex_parts_genset|exact ex_parts_sat]. Qed.
+Example C15_nonvacuous_range : range_witness [4; 1; 2] 7 = [1 - 0; 2 - 1; 4 - 2; 7 - 4] /\ mgs_domain ex_range_inst /\
+  exists a, sat a (encode_mgs ex_range_inst 4).
+Proof. exact ex_range. Qed.
 (* a satisfiable MinSetCover model *)
 Example C15_nonvacuous_setcover : exists m, encode_msc {| sc_universe := [1; 2; 3]%N; sc_subsets := [[1; 2]; [2; 3]; [3]]%N; sc_weights := Some [1; 1; 1] |} = Some m /\
   sat (fun v => match vidx v with [i] => if (i =? 2)%N then 0 else 1 | _ => 0 end) m.
